@@ -250,6 +250,8 @@ def prop_C07(ctx, tier):
     S.check_order_preserving(run, ctx, 'C07-S2')
     K.check_orphan_tolerance(run, ctx, 'C07-P1')
     K.check_store_pairing(run, ctx, 'C07-S3')
+    nq = K.check_newcomer_queued_before_victims(run, ctx, 'C07-S4')
+    run.require('C07-S4', 'store paths with a victim selection', nq, 12)
     _also_nostats(ctx, tier, run, [lambda r, c: K.check_hit_effects(r, c, 'C07'), S.check_orientation])
     run.violations = [v for v in run.violations if v['rule'].startswith('C07')]
     return run
